@@ -26,8 +26,11 @@ import (
 	"net/http"
 	"net/url"
 	"os"
+	"os/signal"
 	"sort"
 	"strings"
+	"sync"
+	"syscall"
 	"time"
 
 	"github.com/klauspost/compress/gzip"
@@ -43,8 +46,10 @@ import (
 // backend is what both registry.Transport and registry.Server offer.
 type backend interface {
 	Set(path string, r *registry.Response)
+	SetSeq(path string, rs []*registry.Response)
 	URL(path string) string
 	Hits(path string) int
+	Requests(path string) []registry.Request
 	Client() *http.Client
 }
 
@@ -55,6 +60,20 @@ type layer struct {
 	uriKind   byte   // g good | e empty | b rejected by ParseRequestURI | p parses but cannot be requested
 	mediaType string
 	script    *registry.Response
+	// headers are the request headers of the description (nil: none).
+	headers map[string][]string
+	// more are the responses to a second, third, ... request for the same URI
+	// (the fetcher as it is makes one request per fetch; a server that fails
+	// once and then answers correctly must still see the first failure count).
+	more []*registry.Response
+	// hops: when script is a redirect, the responses at the successive
+	// redirect targets; the last one is what the client hands to the fetcher.
+	hops []*registry.Response
+	// limited: the spool file takes disk bytes, then writes fail.
+	limited bool
+	disk    int
+	// set by realize
+	path string
 
 	// bookkeeping for the oracles and the histogram
 	comp    string          // plain | gzip | zstd | bzip2
@@ -67,8 +86,55 @@ type layer struct {
 }
 
 func (l *layer) describe() string {
-	return fmt.Sprintf("api=%s digest=%q uri=%c mediatype=%q comp=%s damage=%s payload=%dB response{%s} body=%s",
+	s := fmt.Sprintf("api=%s digest=%q uri=%c mediatype=%q comp=%s damage=%s payload=%dB response{%s} body=%s",
 		l.api, l.digest, l.uriKind, l.mediaType, l.comp, l.damage, len(l.payload), l.script.Describe(), clip(hx.Hex(l.script.Body), 400))
+	for i, h := range l.hops {
+		s += fmt.Sprintf(" hop%d{%s} body=%s", i, h.Describe(), clip(hx.Hex(h.Body), 200))
+	}
+	for i, m := range l.more {
+		s += fmt.Sprintf(" request%d{%s} body=%s", i+2, m.Describe(), clip(hx.Hex(m.Body), 400))
+	}
+	if len(l.headers) > 0 {
+		s += fmt.Sprintf(" request-headers=%v", l.headers)
+	}
+	if l.limited {
+		s += fmt.Sprintf(" spool-file-limit=%d", l.disk)
+	}
+	return s
+}
+
+func isRedirect(st int) bool { return st == 301 || st == 302 || st == 303 || st == 307 || st == 308 }
+
+// final is the response net/http's client hands to the fetcher for the first
+// request of the layer: the script itself, or the end of its redirect chain
+// (a 3xx without Location is returned as it is; a chain that does not end
+// within ten requests is an error of the request). Written from the
+// documentation of http.Client, independently of the fetcher.
+func (l *layer) final() (r *registry.Response, failed bool) {
+	chain := append([]*registry.Response{l.script}, l.hops...)
+	for i, c := range chain {
+		if !isRedirect(statusOf(c)) || c.Header.Get("Location") == "" {
+			return c, false
+		}
+		if i == len(chain)-1 {
+			// the last hop redirects to itself
+			return c, true
+		}
+	}
+	return l.script, false
+}
+
+// seen is what the reader of the response body sees for the first request.
+func (l *layer) seen() ([]byte, registry.Term) {
+	f, _ := l.final()
+	return f.DeliveredTo(http.MethodGet, http.Header(l.headers))
+}
+
+// candidates are the responses a request made for this layer can be answered
+// with, first the one the first request gets.
+func (l *layer) candidates() []*registry.Response {
+	f, _ := l.final()
+	return append([]*registry.Response{f}, l.more...)
 }
 
 func clip(s string, n int) string {
@@ -94,6 +160,10 @@ type world struct {
 	held  map[string]*held
 	scen  int
 	npath int
+	g     *gen
+	rt    *countRT
+	// handles of realized layers that can still be consumed, by realize id
+	handles map[int][]*handle
 }
 
 type openProxy struct {
@@ -101,9 +171,50 @@ type openProxy struct {
 	keys []string
 }
 
+// handle is one realized layer with the readers its consumers hold.
+type handle struct {
+	l        *claircore.Layer
+	expected []byte // what every consumer must see (nil for a filesystem layer)
+	tar      bool
+	rds      map[int]claircore.ReadAtCloser
+	cur      map[int]int64
+	closed   bool
+	desc     string
+}
+
+// countRT counts, per URL path, how often the fetcher's HTTP client was asked
+// to send a request (whether or not it reached a server).
+type countRT struct {
+	inner http.RoundTripper
+	mu    sync.Mutex
+	n     map[string]int
+}
+
+func (c *countRT) RoundTrip(req *http.Request) (*http.Response, error) {
+	c.mu.Lock()
+	if req.URL != nil {
+		c.n[req.URL.Path]++
+	}
+	c.mu.Unlock()
+	return c.inner.RoundTrip(req)
+}
+
+func (c *countRT) calls(path string) int {
+	c.mu.Lock()
+	defer c.mu.Unlock()
+	return c.n[path]
+}
+
 func newWorld(r *hx.Run, be backend, loop bool, root string, scen int) *world {
-	w := &world{r: r, be: be, loop: loop, root: root, scen: scen, open: map[int]*openProxy{}, held: map[string]*held{}}
-	w.arena = libindex.NewRemoteFetchArena(be.Client(), root)
+	w := &world{r: r, be: be, loop: loop, root: root, scen: scen, open: map[int]*openProxy{}, held: map[string]*held{}, handles: map[int][]*handle{}}
+	cl := *be.Client()
+	inner := cl.Transport
+	if inner == nil {
+		inner = http.DefaultTransport
+	}
+	w.rt = &countRT{inner: inner, n: map[string]int{}}
+	cl.Transport = w.rt
+	w.arena = libindex.NewRemoteFetchArena(&cl, root)
 	r.Op("reset", "ok", false)
 	return w
 }
@@ -291,77 +402,160 @@ func errClass(err error) string {
 	return "copy/other"
 }
 
+// install registers the scripts of a layer under a fresh path and returns the URI of the description.
+func (w *world) install(l *layer) string {
+	path := fmt.Sprintf("/s%d/l%d", w.scen, w.npath)
+	w.npath++
+	l.path = path
+	chain := append([]*registry.Response{l.script}, l.hops...)
+	for i, c := range chain {
+		if isRedirect(statusOf(c)) && c.Header.Get("Location") != "" {
+			next := fmt.Sprintf("%s/h%d", path, i)
+			if i == len(chain)-1 {
+				// the end of the chain points at itself
+				if i == 0 {
+					next = path
+				} else {
+					next = fmt.Sprintf("%s/h%d", path, i-1)
+				}
+			}
+			c.Header.Set("Location", w.be.URL(next))
+		}
+		if i == 0 {
+			w.be.SetSeq(path, append([]*registry.Response{c}, l.more...))
+		} else {
+			w.be.Set(fmt.Sprintf("%s/h%d", path, i-1), c)
+		}
+	}
+	switch l.uriKind {
+	case 'g':
+		return w.be.URL(path)
+	case 'b':
+		return "registry.invalid" + path // no scheme: not a request URI
+	case 'p':
+		return path // a request URI, but there is no host to ask
+	}
+	return ""
+}
+
+// layerLine writes the protocol line of one layer: the description and the
+// parameters of the model, obtained from the libraries directly.
+func (w *world) layerLine(l *layer, uri string) {
+	fin, loops := l.final()
+	delivered, term := l.seen()
+	uriFlag := string(l.uriKind)
+	refused := fin.RefuseConn || loops
+	if l.uriKind == 'p' {
+		uriFlag, refused = "g", true
+	}
+	if l.uriKind == 'b' {
+		if _, err := url.ParseRequestURI(uri); err == nil {
+			panic("harness: uri kind b parses")
+		}
+	}
+	key := keyOf(l)
+	// hash of the delivered bytes under the algorithm the key names
+	sum := []byte(nil)
+	if i := strings.IndexByte(key, ':'); i >= 0 {
+		sum = hashOf(key[:i], delivered)
+	}
+	z := "x"
+	expected := delivered
+	if k := magicKind(delivered); k == registry.Gzip || k == registry.Zstd {
+		if out, ok := decode(k, delivered, term); ok {
+			z = "=" + hx.Hex(out)
+			expected = out
+		}
+	}
+	tarFlag := "0"
+	if tarAccepted(expected) {
+		tarFlag = "1"
+	}
+	disk := "-"
+	if l.limited {
+		disk = fmt.Sprint(l.disk)
+	}
+	ct := fin.Header.Get("Content-Type")
+	line := fmt.Sprintf("layer %s %s %s %s %s %d %s %s %s %s %s %s %s", l.api, hx.Hex([]byte(l.digest)), uriFlag, hx.Hex([]byte(l.mediaType)),
+		b01(refused), statusOf(fin), hx.Hex([]byte(ct)), term, hx.Hex(delivered), hx.Hex(sum), z, tarFlag, disk)
+	w.r.Op(line, "queued", true)
+	w.r.Count("comp:" + l.comp)
+	w.r.Count("damage:" + l.damage)
+	w.r.Count("term:" + term.String())
+	w.r.Count("framing:" + fin.Framing.String())
+	w.r.Count(fmt.Sprintf("status:%d", statusOf(fin)))
+	w.r.Count("magic:" + magicKind(delivered))
+	w.r.Count("ctype:" + ctClass(ct))
+	w.r.Count("bodysize:" + sizeBucket(len(delivered)))
+	if len(fin.Chunks) > 0 {
+		w.r.Count("chunked-reads:yes")
+	} else {
+		w.r.Count("chunked-reads:no")
+	}
+	if len(l.more) > 0 {
+		w.r.Count("attempts:several-scripted")
+	}
+	if len(l.hops) > 0 {
+		w.r.Count(fmt.Sprintf("redirect-hops:%d", len(l.hops)))
+	}
+	if l.limited {
+		w.r.Count("spool-limit:" + sizeBucket(l.disk))
+	}
+	if ce := fin.Header.Get("Content-Encoding"); ce != "" {
+		w.r.Count("content-encoding:" + strings.ToLower(ce) + ":decoded=" + b01(fin.Decoded(registry.AsksGzip(http.MethodGet, http.Header(l.headers)))))
+	}
+}
+
+// withSpoolLimit runs f while no file of the process can grow beyond n bytes
+// (RLIMIT_FSIZE; SIGXFSZ is ignored, so the write fails with EFBIG): the
+// stand-in for a full or failing disk under the arena. Nothing else writes
+// files while f runs: the harness' own output is written by this goroutine.
+func withSpoolLimit(n int, f func()) {
+	var old syscall.Rlimit
+	if err := syscall.Getrlimit(syscall.RLIMIT_FSIZE, &old); err != nil {
+		panic(err)
+	}
+	lim := syscall.Rlimit{Cur: uint64(n), Max: old.Max}
+	if err := syscall.Setrlimit(syscall.RLIMIT_FSIZE, &lim); err != nil {
+		panic(err)
+	}
+	defer func() {
+		if err := syscall.Setrlimit(syscall.RLIMIT_FSIZE, &old); err != nil {
+			panic(err)
+		}
+	}()
+	f()
+}
+
 // realize runs one RealizeDescriptions / Realize call over the layers, writes
 // the protocol lines and checks the statement on the outcome.
 func (w *world) realize(id int, ls []*layer, hold bool) {
 	n := len(ls)
 	uris := make([]string, n)
 	stall := false
-	for i, l := range ls {
-		path := fmt.Sprintf("/s%d/l%d", w.scen, w.npath)
-		w.npath++
-		w.be.Set(path, l.script)
-		switch l.uriKind {
-		case 'g':
-			uris[i] = w.be.URL(path)
-		case 'e':
-			uris[i] = ""
-		case 'b':
-			uris[i] = "registry.invalid" + path // no scheme: not a request URI
-		case 'p':
-			uris[i] = path // a request URI, but there is no host to ask
+	limit := -1
+	for _, l := range ls {
+		if l.limited && (limit < 0 || l.disk < limit) {
+			limit = l.disk
 		}
-		delivered, term := l.script.Delivered()
+	}
+	for i, l := range ls {
+		if limit >= 0 {
+			// the limit is the process's: it holds for every layer of the call
+			if !l.limited || l.disk != limit {
+				l.limited, l.disk = true, limit
+			}
+			if len(l.payload) > limit {
+				l.pristine = false
+			}
+		}
+		uris[i] = w.install(l)
+		_, term := l.seen()
 		if term == registry.TermStall && w.held[keyOf(l)] == nil {
 			// (a layer served from the arena makes no request and cannot stall)
 			stall = true
 		}
-		// parameters of the model, from the libraries directly
-		uriFlag := string(l.uriKind)
-		refused := l.script.RefuseConn
-		if l.uriKind == 'p' {
-			uriFlag, refused = "g", true
-		}
-		if l.uriKind == 'b' {
-			if _, err := url.ParseRequestURI(uris[i]); err == nil {
-				panic("harness: uri kind b parses")
-			}
-		}
-		key := keyOf(l)
-		// hash of the delivered bytes under the algorithm the key names
-		sum := []byte(nil)
-		if i := strings.IndexByte(key, ':'); i >= 0 {
-			sum = hashOf(key[:i], delivered)
-		}
-		z := "x"
-		expected := delivered
-		if k := magicKind(delivered); k == registry.Gzip || k == registry.Zstd {
-			if out, ok := decode(k, delivered, term); ok {
-				z = "=" + hx.Hex(out)
-				expected = out
-			}
-		}
-		tarFlag := "0"
-		if tarAccepted(expected) {
-			tarFlag = "1"
-		}
-		ct := l.script.Header.Get("Content-Type")
-		line := fmt.Sprintf("layer %s %s %s %s %s %d %s %s %s %s %s %s", l.api, hx.Hex([]byte(l.digest)), uriFlag, hx.Hex([]byte(l.mediaType)),
-			b01(refused), statusOf(l.script), hx.Hex([]byte(ct)), term, hx.Hex(delivered), hx.Hex(sum), z, tarFlag)
-		w.r.Op(line, "queued", true)
-		w.r.Count("comp:" + l.comp)
-		w.r.Count("damage:" + l.damage)
-		w.r.Count("term:" + term.String())
-		w.r.Count("framing:" + l.script.Framing.String())
-		w.r.Count(fmt.Sprintf("status:%d", statusOf(l.script)))
-		w.r.Count("magic:" + magicKind(delivered))
-		w.r.Count("ctype:" + ctClass(ct))
-		w.r.Count("bodysize:" + sizeBucket(len(delivered)))
-		if len(l.script.Chunks) > 0 {
-			w.r.Count("chunked-reads:yes")
-		} else {
-			w.r.Count("chunked-reads:no")
-		}
+		w.layerLine(l, uris[i])
 	}
 	timeout := 30 * time.Second
 	if stall {
@@ -379,7 +573,7 @@ func (w *world) realize(id int, ls []*layer, hold bool) {
 	var got []*claircore.Layer
 	var rerr error
 	nilOnErr := true
-	out := hx.Guard(func() string {
+	call := func() string {
 		if legacy {
 			in := make([]*claircore.Layer, n)
 			for i, l := range ls {
@@ -387,7 +581,7 @@ func (w *world) realize(id int, ls []*layer, hold bool) {
 				if err != nil {
 					d = claircore.Digest{}
 				}
-				in[i] = &claircore.Layer{Hash: d, URI: uris[i]}
+				in[i] = &claircore.Layer{Hash: d, URI: uris[i], Headers: l.headers}
 			}
 			rerr = p.Realize(ctx, in)
 			if rerr == nil {
@@ -396,7 +590,7 @@ func (w *world) realize(id int, ls []*layer, hold bool) {
 		} else {
 			descs := make([]claircore.LayerDescription, n)
 			for i, l := range ls {
-				descs[i] = claircore.LayerDescription{Digest: l.digest, URI: uris[i], MediaType: l.mediaType}
+				descs[i] = claircore.LayerDescription{Digest: l.digest, URI: uris[i], MediaType: l.mediaType, Headers: l.headers}
 			}
 			res, err := p.RealizeDescriptions(ctx, descs)
 			rerr = err
@@ -409,11 +603,23 @@ func (w *world) realize(id int, ls []*layer, hold bool) {
 			}
 		}
 		return ""
-	})
+	}
+	var out string
+	if limit >= 0 {
+		withSpoolLimit(limit, func() { out = hx.Guard(call) })
+	} else {
+		out = hx.Guard(call)
+	}
 	if out == "panic" {
 		w.r.Fail("", "panic in Realize: "+ls[0].describe())
 		w.r.Op(fmt.Sprintf("realize %d %s", id, b01(hold)), "panic", true)
 		return
+	}
+	reqs := make([]string, n)
+	for i, l := range ls {
+		k := w.rt.calls(l.path)
+		reqs[i] = fmt.Sprint(k)
+		w.r.Count("requests-per-layer:" + reqs[i])
 	}
 	if rerr != nil {
 		w.r.Count("outcome:err")
@@ -421,7 +627,11 @@ func (w *world) realize(id int, ls []*layer, hold bool) {
 		if !nilOnErr {
 			w.r.Fail("", "layers returned together with an error: "+ls[0].describe())
 		}
-		w.r.Op(fmt.Sprintf("realize %d %s", id, b01(hold)), "err", true)
+		ans := "err"
+		if n == 1 {
+			ans += " r:" + reqs[0]
+		}
+		w.r.Op(fmt.Sprintf("realize %d %s", id, b01(hold)), ans, true)
 		p.Close()
 		w.oracleFailed(ls, rerr)
 		return
@@ -432,8 +642,17 @@ func (w *world) realize(id int, ls []*layer, hold bool) {
 	for i, l := range got {
 		views[i], bodies[i] = w.readBack(l)
 	}
-	w.r.Op(fmt.Sprintf("realize %d %s", id, b01(hold)), "ok "+strings.Join(views, ";"), true)
+	w.r.Op(fmt.Sprintf("realize %d %s", id, b01(hold)), "ok "+strings.Join(views, ";")+" r:"+strings.Join(reqs, ","), true)
 	w.oracleSucceeded(ls, got, views, bodies)
+	hs := make([]*handle, n)
+	for i, l := range got {
+		hs[i] = &handle{l: l, tar: strings.HasPrefix(views[i], "t:"), rds: map[int]claircore.ReadAtCloser{}, cur: map[int]int64{}, desc: ls[i].describe()}
+		if hs[i].tar {
+			hs[i].expected = bodies[i]
+		}
+	}
+	w.handles[id] = hs
+	w.consumeSome(id)
 	keys := make([]string, n)
 	for i, l := range ls {
 		keys[i] = keyOf(l)
@@ -452,6 +671,12 @@ func (w *world) realize(id int, ls []*layer, hold bool) {
 		if err := p.Close(); err != nil {
 			w.r.Fail("", fmt.Sprintf("FetchProxy.Close: %v: %s", err, ls[0].describe()))
 		}
+		for _, h := range hs {
+			h.closed = true
+		}
+		w.r.Op(fmt.Sprintf("release %d", id), "closed", false)
+		w.consumeSome(id)
+		delete(w.handles, id)
 	}
 }
 
@@ -480,6 +705,11 @@ func (w *world) close(id int) {
 		w.r.Fail("", fmt.Sprintf("FetchProxy.Close of realize %d: %s", id, out))
 	}
 	w.r.Op(fmt.Sprintf("close %d", id), out, true)
+	for _, h := range w.handles[id] {
+		h.closed = true
+	}
+	w.consumeSome(id)
+	delete(w.handles, id)
 }
 
 // readBack returns the canonical view and the bytes of a realized layer.
@@ -570,12 +800,16 @@ func Run(cfg hx.Config) error {
 		return err
 	}
 	defer os.RemoveAll(root)
+	// a write beyond the spool limit must come back as an error, not as a signal
+	signal.Ignore(syscall.SIGXFSZ)
 	g := &gen{rnd: hx.NewRand(cfg.Seed), cfg: cfg}
 	tr := registry.NewTransport()
 	scen := 0
 	next := func(be backend, loop bool) *world {
 		scen++
-		return newWorld(r, be, loop, root, scen)
+		w := newWorld(r, be, loop, root, scen)
+		w.g = g
+		return w
 	}
 
 	// 1. witnesses: the repaired defect and the corpus
@@ -586,6 +820,9 @@ func Run(cfg hx.Config) error {
 
 	// 2. systematic damage sweeps over small layers (every flip position, every cut)
 	sweeps(r, g, next, tr)
+
+	// 2b. a first transfer that dies, a second request that would succeed
+	retrySweep(r, g, next, tr)
 
 	// 3. random single fetches
 	nrand := cfg.N(2500, 25000)
